@@ -55,6 +55,11 @@ CLAIMS = {
   note="database/sql Commit/Rollback and the engines' atomicity are assumed (trusted contracts); the callback is assumed not to finish the transaction itself; cancelled contexts not modelled; ORM.Transaction exists for PostgresDB only. One genuine defect found and repaired: ORM calls inside ORM.Transaction ran outside the transaction (nothing read the context key) and survived its rollback.",
   technique="contract-based deductive verification: ghost state machine for *sql.Tx, panic/recover unwinding in the VC generator, call-site preconditions, ghost statement counter",
   design="§5 C14"),
+ "C13": dict(
+  text="Deductive proof of SQL text provenance: with the uninterpreted predicate safe(s) (fixed template text, validated identifiers, allow-listed words, digits), every statement string handed to the database by QueryBuilder.Build/Get, ORM.Create/Update/Delete/Count and the three drivers' BulkInsert/CreateTable/DropTable/TableExists/GetLastInsertID is proved safe on every path, for all tables, columns, operators, directions, join types, column types and values; values only ever travel in the argument vector; the identifier sanitizers are proved to return safe text only for names matching the identifier pattern; operators/directions/join types reach the text only after comparison with literal allow-lists; column types additionally contain no comma outside parentheses. Structural scans pin the six regex literals and confine all Exec/Query/QueryRow/Prepare call sites to the functions under contract.",
+  note="safe() is a provenance abstraction (literals of the functions under contract, closure under concatenation/Join/Sprintf with a literal format); the link from the regex literals to the character classes is an axiom tied to the literal by a structural check; ORM.Query takes raw SQL by design; real-engine quoting/unicode behaviour not modelled. One genuine defect found and repaired: a column type could smuggle a second column definition through a top-level comma.",
+  technique="contract-based deductive verification: ghost provenance predicate with literal facts, model of fmt.Sprintf/Fprintf formats, call-site preconditions on every statement execution, structural regex/call-site pinning",
+  design="§5 C13"),
 }
 
 def main():
